@@ -10,6 +10,7 @@ import json
 import os
 import random
 import shutil
+import subprocess
 import sys
 
 from engine import (Check, tlc_ok, validate_traces, pmap, run, tool_env, BIN,
@@ -253,6 +254,78 @@ def shape_case(case):
         shutil.rmtree(root, ignore_errors=True)
 
 
+def consumer_case(case):
+    """a second bfg9000 project uses the generated package through
+    package('mypkg') (the -uninstalled file, found via PKG_CONFIG_PATH) with
+    the real gcc: it must configure, build and run.  The library has a
+    transitive static dependency (bar), which must reach the consumer's link
+    through the private fields when foo is static."""
+    kind, incdir = case
+    root = scratch('verif-c17c-')
+    try:
+        a = os.path.join(root, 'a_src')
+        b = os.path.join(root, 'b')
+        os.makedirs(os.path.join(a, incdir))
+        os.makedirs(b)
+        W = lambda d, n, t: open(os.path.join(d, n), 'w').write(t)
+        W(a, 'bar.c', 'int bar(void){return 40;}\n')
+        W(a, 'foo.c', 'int bar(void);int foo(void){return bar()+2;}\n')
+        W(os.path.join(a, incdir), 'foo.h', 'int foo(void);\n#define FOO_H 1\n')
+        W(a, 'build.bfg',
+          "project('a', version='1.0')\n"
+          "bar = static_library('bar', ['bar.c'])\n"
+          "foo = %s('foo', ['foo.c'], libs=[bar])\n"
+          "pkg_config('mypkg', version='1.0', includes=[%r], libs=[foo], "
+          "options=['-DFROM_PC=1'])\n" % (kind, incdir))
+        W(b, 'main.c', '#include <stdio.h>\n#include <foo.h>\n'
+          '#if !defined(FOO_H) || FROM_PC != 1\n#error flags\n#endif\n'
+          'int main(void){printf("%d\\n", foo());return 0;}\n')
+        # (a static library's own dependencies are in the private fields,
+        # which pkg-config hands out for static linking only)
+        W(b, 'build.bfg', "project('b')\npkg = package('mypkg'%s)\n"
+          "executable('prog', ['main.c'], packages=[pkg])\n" % (
+              ", kind='static'" if kind == 'static_library' else ''))
+        env = tool_env()
+        abld = os.path.join(root, 'a_build')
+        ev = {'ev': 'Consumer', 'kind': kind, 'producer_exit': -1,
+              'configure_exit': -1, 'build_exit': -1, 'run_exit': -1,
+              'out': -1, 'note': ''}
+        rc, out = run(['/venv/bin/bfg9000', 'configure', abld,
+                       '--no-resolve-packages', '--backend=make'], cwd=a,
+                      env=env)
+        if rc == 0:
+            rc, out = run(['make', '-j2'], cwd=abld, env=env)
+        ev['producer_exit'] = rc
+        if rc != 0:
+            ev['note'] = out[-400:]
+            return [ev]
+        env2 = tool_env({'PKG_CONFIG_PATH': os.path.join(abld, 'pkgconfig'),
+                         'MOPACK': os.path.join(BIN, 'mopack-stub')})
+        bbld = os.path.join(root, 'b_build')
+        rc, out = run(['/venv/bin/bfg9000', 'configure', bbld,
+                       '--no-resolve-packages', '--backend=make'], cwd=b,
+                      env=env2)
+        ev['configure_exit'] = rc
+        if rc != 0:
+            ev['note'] = out[-400:]
+            return [ev]
+        rc, out = run(['make'], cwd=bbld, env=env2)
+        ev['build_exit'] = rc
+        if rc != 0:
+            ev['note'] = out[-500:]
+            return [ev]
+        r = subprocess.run([os.path.join(bbld, 'prog')], capture_output=True,
+                           text=True, env={'PATH': '/usr/bin:/bin'}, cwd='/')
+        ev['run_exit'] = r.returncode
+        try:
+            ev['out'] = int(r.stdout.strip())
+        except ValueError:
+            ev['note'] = (r.stdout + r.stderr)[-300:]
+        return [ev]
+    finally:
+        shutil.rmtree(root, ignore_errors=True)
+
+
 def shape_cases():
     return [(a, i, l, p) for a in (None, False, True)
             for i in ('unset', 'empty', 'given')
@@ -310,6 +383,9 @@ def main(argv):
                                                         else 400]
     req = pmap(requires_case, rjobs)
     fl = pmap(flags_case, flag_cases(ck)) + pmap(shape_case, shape_cases())
+    fl += pmap(consumer_case, [(k, d) for k in (
+        'static_library', 'shared_library', 'library')
+        for d in ('inc', 'my inc')])
     traces, meta = [], []
     for e in evs:
         traces.append([{k: v for k, v in e.items() if k != 'result'}])
@@ -340,6 +416,9 @@ def main(argv):
             key = 'C17:simplify:%s:%s' % (info[0], shape)
             what = 'simplify_specifiers(%r) -> %s' % (
                 spec_str(s), 'raised' if e['raised'] else e.get('result'))
+        elif e['ev'] == 'Consumer':
+            key = 'C17:consumer:%s:%s' % (info[0], e['kind'])
+            what = 'consumer of %s: %s' % (e['kind'], json.dumps(e))
         elif e['ev'] == 'Requires':
             key = 'C17:%s:%s:%s' % (e['field'], info[0], spec_str(e['set']))
             if e['field'] == 'conflicts' and len(e['set']) > 1:
